@@ -225,6 +225,18 @@ pub async fn run(cx: &mut Ctx) {
         }
     }
 
+    // bound the work of one run (a run with many files would otherwise take minutes in the
+    // thorough tier): a seeded subsample, so that the run stays a function of the seed
+    let cap = cx.case.param("max_corruptions", 4000) as usize;
+    if cx.case.corruptions.is_empty() && plan.len() > cap {
+        let mut rng = Rng::new(cx.case.seed ^ 0x5AB5);
+        for i in (1..plan.len()).rev() {
+            let j = rng.usize(i + 1);
+            plan.swap(i, j);
+        }
+        plan.truncate(cap);
+        cx.probe("corruption-plan-subsampled");
+    }
     let mut evaluated = 0u64;
     for (ci, c) in plan.iter().enumerate() {
         let mut tree = pristine.clone();
@@ -345,7 +357,7 @@ pub async fn run(cx: &mut Ctx) {
         if c.compact_after {
             for n in &names {
                 let def = &model.tables[n].0;
-                let row = probe_row(def, ci as u64);
+                let row = probe_row(def, c.pos);
                 let ins = Stmt::Insert { table: n.clone(), cols: vec![], rows: vec![row.clone()] };
                 if db.exec(&ins.sql()).await.is_ok() {
                     let e = expected.get_mut(n).unwrap();
